@@ -25,6 +25,8 @@ type c04Case struct {
 	Shape  string   `json:"key_shape"`
 	Types  []string `json:"col_types"`
 	Out    []string `json:"output_names"` // name under which each group column is selected (alias or the column itself)
+	// KeyForm of the first grouping column: "" | "nested" (GROUP BY d.k1 over rows carrying d:{k1:..}) | "backquoted"
+	KeyForm string `json:"first_key_form,omitempty"`
 }
 
 func genC04(ref core.CaseRef, r *rand.Rand) *c04Case {
@@ -114,6 +116,14 @@ func genC04(ref core.CaseRef, r *rand.Rand) *c04Case {
 	if c.FnKey {
 		sel[0] = "upper(k1) AS k1"
 		gb[0] = "upper(k1)"
+	} else if ncols >= 1 && ref.Index%7 == 4 {
+		c.KeyForm = pick(r, []string{"nested", "backquoted"})
+		c.Out[0] = "g_k1"
+		if c.KeyForm == "nested" {
+			sel[0], gb[0] = "d.k1 AS g_k1", "d.k1"
+		} else {
+			sel[0], gb[0] = "`k1` AS g_k1", "`k1`"
+		}
 	} else if r.Intn(3) == 0 {
 		// some group columns selected under an alias, in any mix with un-aliased ones
 		for j := range c.Cols {
@@ -194,6 +204,27 @@ func execC04(ctx *core.Ctx, c *c04Case) {
 			s[col] = "__sentinel__"
 		}
 		rows = append(append([]Row{}, rows...), s)
+	}
+	if c.KeyForm == "nested" {
+		// as the caller sends them: the first key column lives inside the object d
+		feed := make([]Row, len(rows))
+		for i, row := range rows {
+			cp := Row{}
+			for k, v := range row {
+				if k != "k1" {
+					cp[k] = v
+				}
+			}
+			if v, ok := row["k1"]; ok {
+				cp["d"] = map[string]any{"k1": v}
+			}
+			feed[i] = cp
+		}
+		rows = feed
+	}
+	if c.KeyForm != "" {
+		ctx.Count("cases_key_form_"+c.KeyForm, 1)
+		attrs["first_key_form"] = c.KeyForm
 	}
 	res := runWindow(c.SQL, rows, runOpts{Opts: eng.Opts{}, Expect: expect})
 	if res.Err != nil {
